@@ -318,6 +318,9 @@ word wwGetBits(const word a[], size_t pos, size_t width)
 	register word ret;
 	size_t n = pos / B_PER_W;
 	ASSERT(wwIsValid(a, W_OF_B(pos + width)));
+	// пустое поле?
+	if (width == 0)
+		return 0;
 	pos %= B_PER_W;
 	// биты a[n]
 	ret = a[n] >> pos;
@@ -347,6 +350,9 @@ void wwSetBits(word a[], size_t pos, size_t width, register word val)
 	size_t n = pos / B_PER_W;
 	ASSERT(wwIsValid(a, W_OF_B(pos + width)));
 	ASSERT(width <= B_PER_W);
+	// пустое поле?
+	if (width == 0)
+		return;
 	// маска
 	if (width < B_PER_W)
 	{
